@@ -342,8 +342,14 @@ def _compatible_tensor_params(
       and params2.transformations[0] != _QuantTrans.NO_QUANTIZE
   ):
     # NO_QUANTIZE has no parameters. So only if both params aren't NO_QUANTIZE
-    # do we expect the parameters to be the same.
-    if params1.parameters != params2.parameters:
+    # do we expect the parameters to be the same. ADD_QUANTIZE leaves the source
+    # tensor untouched (a separate quantize op is inserted per set of
+    # parameters), so two of them never conflict.
+    both_add_quantize = (
+        params1.transformations[0] == _QuantTrans.ADD_QUANTIZE
+        and params2.transformations[0] == _QuantTrans.ADD_QUANTIZE
+    )
+    if not both_add_quantize and params1.parameters != params2.parameters:
       return False
   # We only need to check the first transformation because transformations are
   # applied in order, and as long as the one that's immediately after the tensor
